@@ -7,6 +7,7 @@ wt="$1"; name="$2"
 cd "$wt" || exit 2
 crate=simple-dns; feat=""
 if grep -qi "simple-mdns/tests" MUTANT/README.md; then crate=simple-mdns; feat="--features sync"; fi
+if [ "$crate" = simple-mdns ] && grep -qi "async-tokio" MUTANT/README.md; then feat="--features sync,async-tokio"; fi
 git checkout -q -- . 2>/dev/null
 git checkout -q --detach "$(git -C /repo rev-parse HEAD)"
 git apply MUTANT/patch.diff || { echo "PATCH-DOES-NOT-APPLY"; exit 1; }
